@@ -109,7 +109,13 @@ class Optimizer:
                     expr = self._run_fixed_point(expr, step, rules, name, debug=debug)
                 else:
                     expr = self._run_once(expr, step, rules, name, debug=debug)
-                rules[name].expression = expr
+
+                if expr is not rule.expression:
+                    # Rule objects may be shared with other parsers (the same
+                    # rules can be passed to more than one `Parser`), so the
+                    # rewritten rule replaces the table entry instead of being
+                    # updated in place.
+                    rules[name] = rule.with_children([expr])
 
         return rules
 
